@@ -42,9 +42,12 @@ def strip_versions(t):
 def shared_writes_before(cx: Cx, p: Path, upto: Event = None) -> List[str]:
     """Describe every write to non-fresh state that happens on path p before `upto` (default: its last event)."""
     out = []
+    up_arms = dict(upto.data.get('arms', [])) if upto is not None else {}
     for e in p.events:
         if e is upto:
             break
+        if any(k in up_arms and up_arms[k] != arm for k, arm in e.data.get('arms', [])):
+            continue        # belongs to the other arm of a conditional expression: not on the raising path
         if e.kind == 'store' and e.data.get('shared'):
             out.append(f"{e.data.get('store')} on {e.data.get('loc') or e.data.get('target')!r} at line {e.line}")
         elif e.kind == 'call' and e.data.get('target_kind') == 'pkg' and not e.data.get('inlined'):
@@ -200,9 +203,33 @@ def is_system_execute_call(cx: Cx, e: Event) -> bool:
     return False
 
 
-def scheduler_paths(cx: Cx, unroll=2, inline=True) -> Tuple[FuncInfo, List[Path]]:
-    fn = cx.fn(CORE + 'SystemManager.execute_systems')
-    ps = cx.walker.paths(fn, WalkOptions(unroll=unroll, callee_raises=False))
+def execute_reachers(cx: Cx) -> frozenset:
+    """Package functions from which a System.execute call site is reachable without passing through an open-world hook
+    (the scheduler and whatever helpers it was split into).  These are walked inline by the scheduler rules, so that
+    extracting or merging helper methods does not change what is analysed."""
+    direct = set()
+    for k, calls in cx.effects.calls.items():
+        if any(is_system_execute_call(cx, c) for c in calls):
+            direct.add(k)
+    sysc = cx.prog.cls(CORE + 'System')
+    hooks = {cx.effects.key(f) for f in cx.prog.all_functions if f.cls is not None and cx.prog.is_subclass(f.cls, sysc)}
+    reach = set(direct)
+    changed = True
+    while changed:
+        changed = False
+        for k, cs in cx.effects.callees.items():
+            if k in reach or k in hooks:
+                continue
+            if any(c in reach and c not in hooks for c in cs):
+                reach.add(k)
+                changed = True
+    return frozenset(q for q in reach if '#' not in q)
+
+
+def scheduler_paths(cx: Cx, unroll=2, inline=True, root: str = None) -> Tuple[FuncInfo, List[Path]]:
+    fn = cx.fn(root or (CORE + 'SystemManager.execute_systems'))
+    k = execute_reachers(cx) - {fn.qualname}
+    ps = cx.walker.paths(fn, WalkOptions(unroll=unroll, callee_raises=False, inline_full=k, max_paths=60000))
     return fn, ps
 
 
@@ -404,16 +431,28 @@ def check_lookup(cx: Cx, fn_q: str, container: Term, key: Term, exc: str, throw:
 
 
 # ---------------------------------------------------------------------------------------------- purity / iteration
+STATE_FIELDS = {'agents', 'components', 'cells', 'component_pools', 'systems', 'execution_queue', 'timestep', '_status', 'records',
+                '_components', '_tag', 'tag', '_tag_names', '_tag_counter', '__dict__', '_parameters', '_index_offset', 'width', 'height',
+                'depth', 'wrap_env', 'x', 'y', 'z', 'priority', 'frequency', 'start', 'end', 'last_write', 'random', 'model', 'environment',
+                'id', 'value', 'table'}
+
+
 def check_pure(cx: Cx, fn_q: str, rule='R-PURE'):
+    """An observer writes no model state (transitively).  Writes to a private field that is not part of the tabled model
+    state (a memo / cache) are tolerated here: whether such a cache can hand out stale or aliased answers is decided by
+    the rule that reconstructs the answer from the live state and by check_result_fresh."""
     fn = cx.fn(fn_q)
     ws = cx.effects.trans_writes(fn)
-    if ws:
-        w, chain = ws[0]
+    bad = [(w, ch) for w, ch in ws if not (w.loc and w.loc[1].startswith('_') and w.loc[1] not in STATE_FIELDS)]
+    tolerated = sorted({w.loc[1] for w, ch in ws if (w, ch) not in bad})
+    if bad:
+        w, chain = bad[0]
         cx.violation(rule, fn.qualname, 'observer-writes-shared-state',
                      f"{fn.qualname} is an observer but can write {w.loc} ({w.kind} at {w.where} via {' -> '.join(chain)})",
                      where=cx.where(fn))
     else:
-        cx.ok(rule, f"{fn.qualname} writes no shared state (transitively)", where=cx.where(fn), function=fn.qualname)
+        cx.ok(rule, f"{fn.qualname} writes no model state (transitively)" + (f"; private cache fields {tolerated}" if tolerated else ''),
+              where=cx.where(fn), function=fn.qualname)
 
 
 def iteration_sources(p: Path) -> List[Tuple[Term, int]]:
@@ -471,3 +510,52 @@ def order_class(it: Term, base: Term) -> str:
     if isinstance(it, App) and it.fn == 'slice' and it.args and order_class(it.args[0], base) != 'unrelated':
         return 'reordered'
     return 'unrelated'
+
+
+def _contains(t, needle) -> bool:
+    if t is needle or t == needle:
+        return True
+    if isinstance(t, (Attr,)):
+        return _contains(t.base, needle)
+    if isinstance(t, Sub):
+        return _contains(t.base, needle) or _contains(t.index, needle)
+    if isinstance(t, App):
+        return any(_contains(a, needle) for a in t.args) or any(_contains(v, needle) for _, v in t.kw)
+    if isinstance(t, TupleT):
+        return any(_contains(a, needle) for a in t.items)
+    if isinstance(t, Fresh) and t is not needle:
+        return any(_contains(a, needle) for a in t.items)
+    return False
+
+
+def check_result_fresh(cx: Cx, fn_q: str, rule='R-FRESH', unroll=1):
+    """The object a query returns is allocated in the call and is not also stored into shared state (no memo / cache
+    hands the caller the very list that later answers are served from)."""
+    fn = cx.fn(fn_q)
+    n = 0
+    try:
+        paths = cx.walker.paths(fn, WalkOptions(unroll=unroll, callee_raises=False))
+    except AnalysisError:
+        paths = cx.walker.paths(fn, WalkOptions(unroll=0, callee_raises=False))
+    for p in paths:
+        if p.end != 'return':
+            continue
+        R = p.last.data.get('value')
+        n += 1
+        if not isinstance(R, Fresh):
+            cx.violation(rule, fn.qualname, 'returns-a-fresh-object',
+                         f"{fn.qualname} returns {R!r}: not an object allocated in this call; the caller's edits and later calls can "
+                         f"interfere", where=cx.where(fn, p.last.line), path=p.lines())
+            return
+        for e in p.events:
+            if e.kind == 'store' and e.data.get('shared'):
+                vals = [e.data.get('value'), e.data.get('key')] + list(e.data.get('args') or ())
+                if any(v is not None and _contains(v, R) for v in vals):
+                    cx.violation(rule, fn.qualname, 'result-not-retained-in-shared-state',
+                                 f"{fn.qualname} hands the caller the very object it also stores in {e.data.get('loc') or e.data.get('target')!r} "
+                                 f"(line {e.line}): whatever the caller does to the answer changes later answers", where=cx.where(fn, e.line),
+                                 path=p.lines())
+                    return
+    if n:
+        cx.ok(rule, f"{fn.qualname}: result allocated in the call and not retained in shared state ({n} returning paths)", where=cx.where(fn),
+              function=fn.qualname)
